@@ -36,6 +36,8 @@ type treeCtx struct {
 	logIDs  map[string]int
 	ctxT    sdk.Context
 	prunedCache map[string]map[string][]string
+	hasRewards  bool
+	callSites   []*Node
 }
 
 type replayT struct {
@@ -49,12 +51,12 @@ func runC09() {
 	seed := lib.Seed()
 	r := lib.NewRand(seed)
 	thorough := lib.Tier() == "thorough"
-	ntrees, nrungs := 36, 24
+	ntrees, nrungs, nstarved := 40, 16, 10
 	if thorough {
-		ntrees, nrungs = 220, 90
+		ntrees, nrungs, nstarved = 260, 60, 40
 	}
 	if modeSearch() {
-		ntrees, nrungs = 400, 40
+		ntrees, nrungs, nstarved = 500, 24, 16
 	}
 	if v := lib.EnvInt("VERIF_N", 0); v > 0 {
 		ntrees = int(v)
@@ -65,6 +67,7 @@ func runC09() {
 	var items []string
 	for t := 0; t < ntrees; t++ {
 		g := NewGen(r, w, thorough)
+		g.rewards = t%8 == 3 // one tree in eight may trigger finding C09-1
 		root := g.Tree()
 		tc := prepare(w, root)
 		desc := describe(root, 0)
@@ -76,14 +79,16 @@ func runC09() {
 			continue
 		}
 		// ample gas: the designed tree predicts everything
-		full := tc.run(fullGas)
+		ample := 21_000 + budget(root) + budget(root)/16 + 50_000
+		full := tc.run(ample)
 		b, e := designedCoq(root, root.Addr, false)
-		items = append(items, coqCase(coqList(b), coqEnd(e), full.obs))
-		tc.judge(rep, full, fullGas, desc, fail)
-		rep.Sample(map[string]interface{}{"tree": desc, "gas": fullGas, "observed": full.obs})
+		wfTree := !(tc.hasRewards && rewardsWrite)
+		items = append(items, coqCase(coqList(b), coqEnd(e), full.obs, wfTree))
+		tc.judge(rep, full, ample, desc, fail)
+		rep.Sample(map[string]interface{}{"tree": desc, "gas": ample, "observed": full.obs})
 		cuts := map[string]bool{}
 		// gas ladder
-		for _, gas := range ladder(r, full.obs.GasUsed, estimate(root), nrungs) {
+		for _, gas := range ladder(r, full.obs.GasUsed, ample, nrungs) {
 			rr := tc.run(gas)
 			body, end := "nnil", "Fail"
 			if !rr.obs.Refused {
@@ -97,9 +102,49 @@ func runC09() {
 					end = "Fail"
 				}
 			}
-			items = append(items, coqCase(body, end, rr.obs))
+			items = append(items, coqCase(body, end, rr.obs, wfTree))
 			tc.judge(rep, rr, gas, desc, fail)
 			cuts[body+end] = true
+		}
+		// starved variants: ample gas for the transaction, too little for one or two randomly chosen callees
+		for v := 0; v < nstarved && len(tc.callSites) > 0; v++ {
+			var changed []*Node
+			for k := 0; k < 1+r.Intn(2); k++ {
+				n := tc.callSites[r.Intn(len(tc.callSites))]
+				full := uint64(pcallGas)
+				if n.Kind == NFrame {
+					full = budget(n)
+				}
+				n.GasOverride = 1 + uint64(r.Int63n(int64(full)))
+				changed = append(changed, n)
+			}
+			vctx, _ := tc.ctxT.CacheContext()
+			for _, f := range tc.frames {
+				w.c.InstallCode(vctx, frameAddr(f.Addr), compile(f))
+			}
+			rr := tc.runOn(vctx, ample)
+			vdesc := describe(root, 0)
+			for _, n := range changed {
+				n.GasOverride = 0
+			}
+			if rr.obs.Refused {
+				continue
+			}
+			body, ok := tracedCoq(rr.run.Tr.Root, tc.byInput, tc.addrIdx)
+			if !ok {
+				fail("harness", "trace contains a frame the harness cannot name", "C09:harness:trace", ample, "")
+			}
+			end := "Return"
+			if rr.run.Tr.Root.Err != "" {
+				end = "Fail"
+			}
+			items = append(items, coqCase(body, end, rr.obs, wfTree))
+			vfail := func(kind, what, sig string, gas uint64, detail string) {
+				rep.Fail(lib.Failure{Kind: kind, What: what, Sig: sig, Replay: replayT{Seed: seed, Tree: vdesc, Gas: gas, Detail: detail}})
+			}
+			tc.judge(rep, rr, ample, vdesc, vfail)
+			cuts[body+end] = true
+			rep.Count("starved_variant")
 		}
 		rep.Count(fmt.Sprintf("distinct_executions_per_tree=%02d", min(len(cuts), 20)))
 	}
@@ -120,7 +165,22 @@ func prepare(w *World, root *Node) *treeCtx {
 	for _, m := range tc.markers {
 		tc.byInput[string(m.Target.Bytes())+string(m.Data)] = m
 		seenCtx[m.Ctx] = true
+		if m.Kind == MkRewards {
+			tc.hasRewards = true
+		}
 	}
+	var sites func(f *Node)
+	sites = func(f *Node) {
+		for _, n := range f.Body {
+			if n.Kind == NFrame || n.Kind == NPCall {
+				tc.callSites = append(tc.callSites, n)
+			}
+			if n.Kind == NFrame {
+				sites(n)
+			}
+		}
+	}
+	sites(root)
 	for _, f := range tc.frames {
 		seenCtx[f.Addr] = true
 	}
@@ -156,7 +216,7 @@ func prepare(w *World, root *Node) *treeCtx {
 // identity of the EVM log the precompile emits for it.
 func (tc *treeCtx) calibrate() error {
 	for _, m := range tc.markers {
-		if !m.Kind.designedOK() {
+		if !m.Kind.designedOK() || m.Kind == MkRewards {
 			continue
 		}
 		ctx, _ := tc.ctxT.CacheContext()
@@ -190,8 +250,10 @@ type runRes struct {
 	ctx sdk.Context
 }
 
-func (tc *treeCtx) run(gas uint64) runRes {
-	ctx, _ := tc.ctxT.CacheContext()
+func (tc *treeCtx) run(gas uint64) runRes { return tc.runOn(tc.ctxT, gas) }
+
+func (tc *treeCtx) runOn(base sdk.Context, gas uint64) runRes {
+	ctx, _ := base.CacheContext()
 	r := tc.w.call(ctx, frameAddr(tc.root.Addr), gas)
 	o := Observed{Stor: map[int64]uint64{}, GasUsed: r.Res.GasUsed, VmError: r.Res.VmError}
 	if r.Res.Err != nil {
@@ -248,6 +310,12 @@ func (tc *treeCtx) expectFromTrace(root *TFrame) expect {
 			if m == nil {
 				return
 			}
+			if m.Kind == MkRewards {
+				if kept && rewardsWrite {
+					ex.natives = append(ex.natives, rewardsID)
+				}
+				return
+			}
 			if f.Typ == vm.CALL {
 				ex.started = true
 			}
@@ -298,8 +366,20 @@ func intsEq(a, b []int) bool {
 	return true
 }
 
-func (tc *treeCtx) judge(rep *lib.Report, rr runRes, gas uint64, desc string, fail func(kind, what, sig string, gas uint64, detail string)) {
+func (tc *treeCtx) judge(rep *lib.Report, rr runRes, gas uint64, desc string, fail0 func(kind, what, sig string, gas uint64, detail string)) {
 	o := rr.obs
+	// trees that call delegationRewards trigger finding C09-1 (a native write outside the journal); their
+	// failures carry its signature so that the rest of the trees keeps being judged strictly
+	fail := fail0
+	if tc.hasRewards && rewardsWrite {
+		fail = func(kind, what, sig string, gas uint64, detail string) {
+			if kind == "monitor" {
+				sig = "C09:delegationRewards-unjournaled:" + strings.TrimPrefix(sig, "C09:")
+				what = "delegationRewards writes the native store outside ExecuteNativeAction: " + what
+			}
+			fail0(kind, what, sig, gas, detail)
+		}
+	}
 	var ex expect
 	if o.Refused {
 		ex = expect{events: map[int]bool{}, stor: map[int64]uint64{}}
@@ -474,32 +554,9 @@ func ladder(r *lib.Rand, used uint64, est uint64, n int) []uint64 {
 	return out
 }
 
-// estimate of the gas the tree's own operations need (not counting gas burnt by failing frames)
-func estimate(f *Node) uint64 {
-	var e uint64 = 21000
-	var walk func(f *Node)
-	walk = func(f *Node) {
-		e += 3000
-		for _, n := range f.Body {
-			switch n.Kind {
-			case NSStore:
-				e += 23000
-			case NLog:
-				e += 1200
-			case NPCall:
-				e += 75000
-			case NFrame:
-				walk(n)
-			}
-		}
-	}
-	walk(f)
-	return e + e/20
-}
-
 // ---- Coq case ----
 
-func coqCase(body, end string, o Observed) string {
+func coqCase(body, end string, o Observed, wf bool) string {
 	nat := make([]string, len(o.Natives))
 	for i, v := range o.Natives {
 		nat[i] = lib.Z(int64(v))
@@ -521,7 +578,7 @@ func coqCase(body, end string, o Observed) string {
 	for i, k := range keys {
 		stor[i] = lib.Pair(lib.Z(k), lib.ZU(o.Stor[k]))
 	}
-	return fmt.Sprintf("mk_c09_case %s %s %s %s %s %s %s", body, end, lib.Bool(!o.Failed),
+	return fmt.Sprintf("mk_c09_case %s %s %s %s %s %s %s %s", body, end, lib.Bool(wf), lib.Bool(!o.Failed),
 		lib.List(nat), lib.List(logs), lib.List(stor), lib.List(evs))
 }
 
